@@ -113,7 +113,7 @@ def run_encrypt(ctx, tr, d, key: bytes, keyname, size, seed, kid, halg, via, k, 
     out.mkdir(exist_ok=True)
     if via == "cli":
         subprocess.run(core.cli_cmd("encrypt", "encrypt-and-generate", "--firmware", fw, "--key-name", keyname, "--key-id",
-                                    hex(kid), "--context", d / "keys", "--hash-alg", halg, "--kw-alg", "direct",
+                                    core.num(kid), "--context", d / "keys", "--hash-alg", halg, "--kw-alg", "direct",
                                     "--kms-script", kms, "--encrypt-script", es, "--output-dir", out),
                        cwd=d, env=core.cli_env(), capture_output=True, text=True)
     else:
@@ -225,7 +225,7 @@ def run_geninfo(ctx, tr, d, size, seed, kid, via, k):
     out.mkdir()
     if via == "cli":
         subprocess.run(core.cli_cmd("encrypt", "generate-info", "--encrypted-firmware", bf, "--encrypted-key", kf, "--key-id",
-                                    hex(kid), "--kw-alg", "direct", "--encrypt-script", es, "--output-dir", out),
+                                    core.num(kid), "--kw-alg", "direct", "--encrypt-script", es, "--output-dir", out),
                        cwd=d, env=core.cli_env(), capture_output=True, text=True)
     else:
         core.setup_repo_path()
